@@ -6,6 +6,10 @@ fragments"), independent of html5lib.  Pure stdlib, fully iterative.
 Public interface:
     parse_document(text, scripting=False, compat=frozenset()) -> Result
     parse_fragment(text, context="div", scripting=False, compat=frozenset()) -> Result
+
+Result.trace holds the TRACE_TAGS of the named steps that executed.  With compat=frozenset()
+the algorithm is the standard's; every name in COMPAT_SWITCHES switches one step to what
+html5lib does instead (the step is the one that sets the trace tag "dev:<name>").
 """
 
 HTML_NS = "http://www.w3.org/1999/xhtml"
@@ -88,6 +92,25 @@ TRACE_TAGS = [
     "dev:frameset-text",
     "dev:cdata-nul",
     "dev:implied-end-recursive",  # implied end tags popped > 900 elements (html5lib recursion)
+    # deviations of html5lib found while validating the compat switches (not in SPEC_NOTES)
+    "dev:colgroup-text",          # fragment "in column group": ws after non-ws in one char run
+    "dev:pre-lf",                 # token after <pre>/<listing>/<textarea> was not a character
+                                  # token (html5lib's drop-LF flag lingers), or the LF was
+                                  # dropped while the (original) insertion mode was not "in body"
+                                  # (html5lib only drops it in its in-body phase)
+    "dev:table-in-table-fragment",  # <table> start tag handled by the "in table" rules in a
+                                  # fragment parse (html5lib: closes through the current phase,
+                                  # never reprocesses)
+    "dev:reset-mode",             # reset the insertion mode: html5lib's table gives another mode
+    "dev:cell-caption-ws",        # ws in "in cell"/"in caption" while the AFE needs reconstruction
+    "dev:foster-flag-reset",      # li/dd/dt/option start tag under foster parenting that first
+                                  # closes an element (html5lib then loses its foster flag)
+    "dev:table-text-doctype",     # DOCTYPE token ends "in table text" (html5lib: stays, no flush)
+    "dev:button-in-table",        # <button> with a button in scope, handled through the
+                                  # "in table" anything-else branch (html5lib drops the token)
+    "dev:br-end-frameset-ok",     # </br> while frameset-ok is still "ok" (html5lib keeps it)
+    "dev:table-text-current-node",  # ws in "in table" while the current node is not table-ish
+                                  # and the AFE needs reconstruction
 ]
 
 # compat switches (names of "dev:<name>" tags without the prefix) that reproduce html5lib's
@@ -96,6 +119,9 @@ COMPAT_SWITCHES = frozenset([
     "special-extra", "rb-rtc", "aaa-step1", "aaa-not-in-scope", "aaa-inner-loop",
     "noscript-fragment", "form-context", "command", "dialog-close-p", "textarea", "isindex",
     "any-other-end-tag-ns", "after-body-ws", "frameset-text",
+    "colgroup-text", "pre-lf", "table-in-table-fragment", "reset-mode", "cell-caption-ws",
+    "foster-flag-reset", "table-text-current-node", "br-end-frameset-ok",
+    "button-in-table", "table-text-doctype",
 ])
 # cdata-nul: html5lib's tokenizer turns NUL inside a CDATA section into U+FFFD; the token
 #   interface does not tell the tree builder whether a NUL came from a CDATA section, so the
@@ -421,6 +447,8 @@ class _Parser(object):
         self.original_mode = None
         self.pending_table_chars = []
         self.skip_lf = False
+        self.h5l_drop_lf = False     # compat "pre-lf": html5lib's lingering drop-newline flag
+        self.lf_element_pending = False
         self.stopped = False
         self.context = None          # fragment context element
         self.textarea_from_body = None
@@ -840,6 +868,43 @@ class _Parser(object):
 
     # ------------------------------------------------------------------ reset mode
     def reset_insertion_mode(self):
+        self.reset_insertion_mode_strict()
+        strict = self.mode
+        h5l = self.h5l_reset_mode()
+        if h5l != strict:
+            self.trace.add("dev:reset-mode")
+            if "reset-mode" in self.compat:
+                self.set_mode(h5l)
+
+    H5L_RESET = {"select": "in select", "td": "in cell", "th": "in cell", "tr": "in row",
+                 "tbody": "in table body", "thead": "in table body", "tfoot": "in table body",
+                 "caption": "in caption", "colgroup": "in column group", "table": "in table",
+                 "head": "in body", "body": "in body", "frameset": "in frameset",
+                 "html": "before head"}
+
+    def h5l_reset_mode(self):
+        """html5lib's HTMLParser.resetInsertionMode (names only; foreign nodes skipped)"""
+        stack = self.stack
+        i = len(stack) - 1
+        while i >= 0:
+            node = stack[i]
+            name = node.name
+            last = False
+            if i == 0:
+                last = True
+                if self.context is not None:
+                    name = self.context.name
+            if not last and node.ns != HTML_NS:
+                i -= 1
+                continue
+            if name in self.H5L_RESET:
+                return self.H5L_RESET[name]
+            if last:
+                return "in body"
+            i -= 1
+        return "in body"
+
+    def reset_insertion_mode_strict(self):
         stack = self.stack
         i = len(stack) - 1
         last = False
@@ -927,11 +992,16 @@ class _Parser(object):
             kind = token[0]
             if kind == "chars":
                 data = token[1]
+                self.lf_element_pending = False
                 if self.skip_lf:
                     self.skip_lf = False
                     if data[:1] == "\n":
                         self.trace.add("skip-lf")
                         data = data[1:]
+                        eff = self.original_mode if self.mode == "text" else self.mode
+                        if eff != "in body":
+                            # html5lib only drops the LF in its "in body" phase
+                            self.trace.add("dev:pre-lf")
                 if not data:
                     continue
                 # split into runs of identically treated characters: ws / NUL / other
@@ -953,8 +1023,20 @@ class _Parser(object):
                         while j < n and data[j] != "\x00" and data[j] not in WS:
                             j += 1
                     self.process(("chars", data[i:j], cls))
+                    # bookkeeping of html5lib's token granularity: its tokenizer emits leading
+                    # whitespace as a separate token, then everything up to "<", "&" or NUL
+                    if cls == "text":
+                        self.run_has_nonws = True
+                    elif cls == "nul":
+                        self.run_has_nonws = False
+                        self.run_has_ws = False
+                    else:
+                        self.run_has_ws = True
                     i = j
             else:
+                if self.skip_lf or (self.h5l_drop_lf and self.lf_element_pending):
+                    self.trace.add("dev:pre-lf")
+                self.lf_element_pending = False
                 self.skip_lf = False
                 self.run_has_ws = False
                 self.run_has_nonws = False
@@ -1000,7 +1082,14 @@ class _Parser(object):
                     return v == "text/html" or v == "application/xhtml+xml"
         return False
 
+    VOID_ACK = frozenset("""area br embed img keygen wbr input param source track hr base basefont
+        bgsound link meta col frame image svg math""".split())
+
     def process(self, token):
+        if token[0] == "start" and token[3] and token[1] not in self.VOID_ACK:
+            # self-closing flag that no insertion-mode rule acknowledges (foreign content does)
+            if self.use_insertion_mode(token):
+                self.err()
         while True:
             if self.use_insertion_mode(token):
                 if token[0] == "chars" and token[2] == "nul" and self.stack:
@@ -1453,8 +1542,18 @@ class _Parser(object):
                 self.err()
                 self.trace.add("nul-dropped")
                 return None
+            data = token[1]
+            if (self.h5l_drop_lf and cls == "ws" and not self.run_has_nonws
+                    and self.mode == "in body"):
+                self.h5l_drop_lf = False
+                cur = self.stack[-1]
+                if (data[:1] == "\n" and cur.name in ("pre", "listing", "textarea")
+                        and not cur.children):
+                    data = data[1:]
+                    if not data:
+                        return None
             self.reconstruct_afe()
-            self.insert_text(token[1])
+            self.insert_text(data)
             if cls == "text":
                 self.frameset_ok = False
             return None
@@ -1472,8 +1571,36 @@ class _Parser(object):
         # EOF
         if self.template_modes:
             return self.m_in_template(token)
+        self.check_open_elements_at_end()
         self.stop_parsing()
         return None
+
+    EOF_OK_OPEN = frozenset("""dd dt li optgroup option p rb rp rt rtc tbody td tfoot th thead tr
+        body html""".split())
+
+    def check_open_elements_at_end(self):
+        """EOF / </body> / </html> in body: parse error if anything else is still open"""
+        for n in self.stack:
+            if n.ns != HTML_NS or n.name not in self.EOF_OK_OPEN:
+                self.err()
+                return
+
+    def h5l_foster_flag_reset(self):
+        """html5lib closes the element through the *current phase*; when that is a table phase
+        the nested call switches its insertFromTable flag off for the rest of the token"""
+        if self.foster and self.mode in ("in table", "in table body", "in row"):
+            self.trace.add("dev:foster-flag-reset")
+            if "foster-flag-reset" in self.compat:
+                self.foster = False
+
+    def set_skip_lf(self):
+        if "pre-lf" in self.compat:
+            # html5lib: the next *whitespace token* handled by "in body" drops a leading LF if
+            # the current node is then an empty pre/listing/textarea
+            self.h5l_drop_lf = True
+            self.lf_element_pending = True
+        else:
+            self.skip_lf = True
 
     def in_body_start(self, token):
         name = token[1]
@@ -1545,7 +1672,7 @@ class _Parser(object):
             if self.in_button_scope("p"):
                 self.close_p()
             self.insert_html_element(name, attrs)
-            self.skip_lf = True
+            self.set_skip_lf()
             self.frameset_ok = False
             return None
         if name == "form":
@@ -1572,6 +1699,7 @@ class _Parser(object):
                     if not self.is_html(stack[-1], "li"):
                         self.err()
                     self.pop_until("li")
+                    self.h5l_foster_flag_reset()
                     break
                 if self.is_special(node) and not (
                         node.ns == HTML_NS and node.name in ("address", "div", "p")):
@@ -1579,6 +1707,7 @@ class _Parser(object):
                 i -= 1
             if self.in_button_scope("p"):
                 self.close_p()
+                self.h5l_foster_flag_reset()
             self.insert_html_element(name, attrs)
             return None
         if name in ("dd", "dt"):
@@ -1591,12 +1720,14 @@ class _Parser(object):
                     if not self.is_html(stack[-1], "dd"):
                         self.err()
                     self.pop_until("dd")
+                    self.h5l_foster_flag_reset()
                     break
                 if self.is_html(node, "dt"):
                     self.generate_implied_end_tags(except_for="dt")
                     if not self.is_html(stack[-1], "dt"):
                         self.err()
                     self.pop_until("dt")
+                    self.h5l_foster_flag_reset()
                     break
                 if self.is_special(node) and not (
                         node.ns == HTML_NS and node.name in ("address", "div", "p")):
@@ -1604,6 +1735,7 @@ class _Parser(object):
                 i -= 1
             if self.in_button_scope("p"):
                 self.close_p()
+                self.h5l_foster_flag_reset()
             self.insert_html_element(name, attrs)
             return None
         if name == "plaintext":
@@ -1617,6 +1749,10 @@ class _Parser(object):
                 self.err()
                 self.generate_implied_end_tags()
                 self.pop_until("button")
+                if self.foster:
+                    self.trace.add("dev:button-in-table")
+                    if "button-in-table" in self.compat:
+                        return None
             self.reconstruct_afe()
             self.insert_html_element(name, attrs)
             self.frameset_ok = False
@@ -1710,7 +1846,7 @@ class _Parser(object):
         if name == "textarea":
             self.trace.add("dev:textarea")
             el = self.insert_html_element(name, attrs)
-            self.skip_lf = True
+            self.set_skip_lf()
             self.tok.state = "rcdata"
             self.original_mode = self.mode
             self.frameset_ok = False
@@ -1747,6 +1883,7 @@ class _Parser(object):
         if name in ("optgroup", "option"):
             if self.is_html(stack[-1], "option"):
                 stack.pop()
+                self.h5l_foster_flag_reset()
             self.reconstruct_afe()
             self.insert_html_element(name, attrs)
             return None
@@ -1815,6 +1952,7 @@ class _Parser(object):
                 self.err()
                 self.trace.add("scope-barrier")
                 return None
+            self.check_open_elements_at_end()
             self.set_mode("after body")
             return None
         if name == "html":
@@ -1822,6 +1960,7 @@ class _Parser(object):
                 self.err()
                 self.trace.add("scope-barrier")
                 return None
+            self.check_open_elements_at_end()
             self.set_mode("after body")
             return REPROCESS
         if name in self.BODY_BLOCK_END:
@@ -1910,6 +2049,13 @@ class _Parser(object):
         if name == "br":
             self.err()
             self.trace.add("br-end-tag")
+            if self.frameset_ok:
+                self.trace.add("dev:br-end-frameset-ok")
+                if "br-end-frameset-ok" in self.compat:
+                    self.reconstruct_afe()
+                    self.insert_html_element("br")
+                    stack.pop()
+                    return None
             return self.in_body_start(("start", "br", [], False))
         self.any_other_end_tag(name)
         return None
@@ -1943,6 +2089,13 @@ class _Parser(object):
         if kind == "chars":
             cur = stack[-1]
             if cur.ns == HTML_NS and cur.name in TABLE_FOSTER_TARGETS:
+                self.pending_table_chars = []
+                self.original_mode = self.mode
+                self.set_mode("in table text")
+                return REPROCESS
+            if token[2] == "ws" and not self.run_has_nonws and self.afe_needs_reconstruct():
+                self.trace.add("dev:table-text-current-node")
+            if "table-text-current-node" in self.compat:
                 self.pending_table_chars = []
                 self.original_mode = self.mode
                 self.set_mode("in table text")
@@ -1985,10 +2138,17 @@ class _Parser(object):
                 return REPROCESS
             if name == "table":
                 self.err()
+                if self.context is not None:
+                    # html5lib (fragment parse): closes through its *current* phase, which can
+                    # pop a row group / row although no table is in scope, and never
+                    # reprocesses the start tag
+                    self.trace.add("dev:table-in-table-fragment")
                 if not self.in_table_scope("table"):
                     return None
                 self.pop_until("table")
                 self.reset_insertion_mode()
+                if self.context is not None and "table-in-table-fragment" in self.compat:
+                    return None
                 return REPROCESS
             if name in ("style", "script", "template"):
                 return self.m_in_head(token)
@@ -2050,6 +2210,11 @@ class _Parser(object):
                 return None
             self.pending_table_chars.append(token)
             return None
+        if kind == "doctype":
+            self.trace.add("dev:table-text-doctype")
+            if "table-text-doctype" in self.compat:
+                self.err()
+                return None
         pending = self.pending_table_chars
         self.pending_table_chars = []
         nonws = False
@@ -2090,7 +2255,19 @@ class _Parser(object):
                 if self.close_caption():
                     return REPROCESS
                 return None
+        if kind == "chars" and self.cell_caption_ws(token):
+            return None
         return self.m_in_body(token)
+
+    def cell_caption_ws(self, token):
+        """html5lib's in cell / in caption phases insert a whitespace token without
+        reconstructing the active formatting elements; returns True if handled (compat)"""
+        if token[2] == "ws" and not self.run_has_nonws and self.afe_needs_reconstruct():
+            self.trace.add("dev:cell-caption-ws")
+            if "cell-caption-ws" in self.compat:
+                self.insert_text(token[1])
+                return True
+        return False
 
     def close_caption(self):
         if not self.in_table_scope("caption"):
@@ -2109,6 +2286,8 @@ class _Parser(object):
         kind = token[0]
         stack = self.stack
         if kind == "chars" and token[2] == "ws":
+            if self.colgroup_ws_deviation():
+                return None
             self.insert_text(token[1])
             return None
         if kind == "comment":
@@ -2151,6 +2330,14 @@ class _Parser(object):
         stack.pop()
         self.set_mode("in table")
         return REPROCESS
+
+    def colgroup_ws_deviation(self):
+        """html5lib drops a whole character token (with the whitespace inside it) when the
+        current node is not colgroup (fragment case)"""
+        if self.run_has_nonws and not self.is_html(self.stack[-1], "colgroup"):
+            self.trace.add("dev:colgroup-text")
+            return "colgroup-text" in self.compat
+        return False
 
     # ------------------------------------------------------------------ in table body
     def m_in_table_body(self, token):
@@ -2271,6 +2458,8 @@ class _Parser(object):
                     return None
                 self.close_cell()
                 return REPROCESS
+        if kind == "chars" and self.cell_caption_ws(token):
+            return None
         return self.m_in_body(token)
 
     def close_cell(self):
@@ -2432,7 +2621,7 @@ class _Parser(object):
         kind = token[0]
         if kind == "chars" and token[2] == "ws":
             self.trace.add("after-body-ws")
-            if self.afe_needs_reconstruct():
+            if self.afe_needs_reconstruct() and not self.run_has_nonws:
                 self.trace.add("dev:after-body-ws")
                 if "after-body-ws" in self.compat:
                     self.insert_text(token[1])
@@ -2470,17 +2659,13 @@ class _Parser(object):
                 self.trace.add("dev:frameset-text")
                 if "frameset-text" in self.compat:
                     return None
-            self.run_has_ws = True
             self.insert_text(token[1])
             return None
         if cls == "text":
-            self.run_has_nonws = True
             if self.run_has_ws:
                 self.trace.add("frameset-text-mixed")
         else:
             self.trace.add("nul-dropped")
-            # html5lib's tokenizer ends a character token at NUL
-            self.run_has_nonws = False
         self.err()
         return None
 
@@ -2585,7 +2770,6 @@ class _Parser(object):
                     self.trace.add("dev:frameset-text")
                     if "frameset-text" in self.compat:
                         return None
-                self.run_has_ws = True
             return self.m_in_body(token)
         if kind == "eof":
             self.stop_parsing()
